@@ -44,7 +44,7 @@ def work_shape(shard):
     last_fd = None
     for seed in seeds:
         for (w, l) in sizes:
-            for mr in (1, 2, 6):
+            for mr in ((1, 2, 6) if (seed % 50 or (w, l) != (2, 2)) else (1, 2, 6, 1023, 5000)):      # very large maximum rewards on a few calls
                 for p in LOOSE_PROBS:
                     for fd in (False, True):
                         try:
@@ -241,7 +241,8 @@ def main_refusals():
     """through main(): every single and double deviation from a valid parameter set must raise ValueError and write nothing"""
     base = dict(seed=0, width=2, length=2, rb=0.1, lb=0.1, tb=0.1, lt=0.3, max_reward=6)
     bad = {"seed": [-1], "width": [0, -1], "length": [0, -1], "max_reward": [0, -1],
-           "rb": [0.0, 1.0, -0.1, 1.1], "lb": [0.0, 1.0, -0.1, 1.1], "tb": [0.0, 1.0, -0.1, 1.1], "lt": [0.0, 1.0, -0.1, 1.1]}
+           "rb": [0.0, 1.0, -0.1, 1.1, float("nan"), float("inf")], "lb": [0.0, 1.0, -0.1, 1.1, float("nan")],
+           "tb": [0.0, 1.0, -0.1, 1.1, float("nan")], "lt": [0.0, 1.0, -0.1, 1.1, float("nan"), float("-inf")]}
     singles = [((k, v),) for k in bad for v in bad[k]]
     doubles = [((k1, v1), (k2, v2)) for (k1, k2) in itertools.combinations(sorted(bad), 2) for v1 in bad[k1] for v2 in bad[k2]]
     out = []
@@ -343,8 +344,11 @@ def replay(case):
     i = case["input"]
     leg = i["leg"]
     if leg == "shape":
-        b = G.gen_rnd_board(i["seed"], i["length"], i["width"], i["prob_loose_tile"], i["max_reward"], i["force_down"])
-        why = shape_findings(b, i["length"], i["width"], i["max_reward"], i["force_down"])
+        try:
+            b = G.gen_rnd_board(i["seed"], i["length"], i["width"], i["prob_loose_tile"], i["max_reward"], i["force_down"])
+            why = shape_findings(b, i["length"], i["width"], i["max_reward"], i["force_down"])
+        except Exception as e:                               # noqa: BLE001
+            why = "exception %r" % (e,)
         if why:
             return why
         # not reproducible in isolation: replay the calls that preceded it in the exploring process (history dependence)
